@@ -203,7 +203,7 @@ def run(ctx):
             dh = float(lat_case["dh"])
             ev = [(e[0], e[1], float(lat_case["ay"]) + (cells[i % len(cells)][1] + 0.5) * dh, float(lat_case["ax"]) + (cells[i % len(cells)][0] + 0.5) * dh, e[4], e[5])
                   for i, e in enumerate(ev)]
-        ex_catalog(ctx, ev, catalog_id=None if j % 4 == 0 else int(r.integers(0, 10000)), name=None if j % 3 == 0 else "cat %d" % j,
+        ex_catalog(ctx, ev, catalog_id=[None, 0, 1, int(r.integers(0, 10000))][j % 4], name=None if j % 3 == 0 else "cat %d" % j,
                    lat_case=lat_case, header=bool(j % 2), seed=j)
         if j % 200 == 0:
             ctx.sample({"n_events": nev, "events_head": ev[:2], "with_region": lat_case is not None, "header": bool(j % 2)})
